@@ -232,6 +232,58 @@ theorem make_knots_open (p : ℕ) (a b : K) (n mult : ℕ) :
     rw [h, List.length_append, List.length_replicate, Nat.add_sub_cancel]
     exact List.drop_left' rfl
 
+/-- the constructor applied to an arbitrary list of interior breakpoints (what `make_knots` does after
+`np.linspace` has produced its doubles) -/
+def makeKnotsFrom (p : ℕ) (a b : K) (interior : List K) (mult : ℕ) : List K :=
+  List.replicate (p + 1) a ++ (repeatEach interior mult ++ List.replicate (p + 1) b)
+
+theorem makeKnots_eq_from (p : ℕ) (a b : K) (n mult : ℕ) :
+    makeKnots p a b n mult = makeKnotsFrom p a b (linspaceInterior a b n) mult := rfl
+
+/-- **make_knots_rounded** (lifting lemma for the computed doubles; needs only a linear order on the
+values): whatever interior breakpoints the floating-point `linspace` produced — e.g. any monotone
+rounding of `a + i·h` — as long as `a, interior…, b` is still strictly increasing (consecutive exact
+breakpoints further apart than two roundoffs; the harness checks exactly this on every constructed
+vector) and there are `n-1` of them, the knot vector is non-decreasing, its mesh is that breakpoint
+list, it has `n` non-empty spans, the requested multiplicities and `p+1+mult(n-1)` dofs.  This does
+**not** hold for the former `arange` construction, whose *length* was decided by a rounded quotient. -/
+theorem make_knots_rounded (p : ℕ) (a b : K) (interior : List K) (n mult : ℕ)
+    (hinc : (a :: (interior ++ [b])).Pairwise (· < ·)) (hlen : interior.length = n - 1) (hn : 1 ≤ n)
+    (hm : 1 ≤ mult) :
+    (makeKnotsFrom p a b interior mult).Pairwise (· ≤ ·) ∧
+    mesh (makeKnotsFrom p a b interior mult) = a :: (interior ++ [b]) ∧
+    numspans (makeKnotsFrom p a b interior mult) = n ∧
+    mults (makeKnotsFrom p a b interior mult) = (p + 1) :: (List.replicate (n - 1) mult ++ [p + 1]) ∧
+    numdofs (makeKnotsFrom p a b interior mult) p = p + 1 + mult * (n - 1) := by
+  have hex : makeKnotsFrom p a b interior mult
+      = expand ((a, p + 1) :: (interior.map (fun x => (x, mult)) ++ [(b, p + 1)])) := by
+    simp [makeKnotsFrom, expand, repeatEach, List.flatMap_append, List.flatMap_map]
+  have hfst : ((a, p + 1) :: (interior.map (fun x => (x, mult)) ++ [(b, p + 1)])).map Prod.fst
+      = a :: (interior ++ [b]) := by simp [List.map_map, Function.comp_def]
+  have hne : (a :: (interior.map (fun x => (x, mult)) ++ [(b, p + 1)]).map Prod.fst).Pairwise (· ≠ ·) := by
+    have : (a :: (interior.map (fun x => (x, mult)) ++ [(b, p + 1)]).map Prod.fst) = a :: (interior ++ [b]) := by
+      simp [List.map_map, Function.comp_def]
+    rw [this]
+    exact List.Pairwise.imp (fun h => ne_of_lt h) hinc
+  have hcnt : ∀ q ∈ interior.map (fun x => (x, mult)) ++ [(b, p + 1)], 1 ≤ q.2 := by
+    intro q hq
+    rcases List.mem_append.mp hq with h | h
+    · obtain ⟨x, _, rfl⟩ := List.mem_map.mp h; exact hm
+    · have : q = (b, p + 1) := by simpa using h
+      rw [this]; exact Nat.succ_pos p
+  have hmesh : mesh (makeKnotsFrom p a b interior mult) = a :: (interior ++ [b]) := by
+    rw [hex, mesh_expand a p _ hcnt hne]
+    simp [List.map_map, Function.comp_def]
+  refine ⟨?_, hmesh, ?_, ?_, ?_⟩
+  · rw [hex]; apply expand_sorted; rw [hfst]; exact hinc
+  · unfold numspans; rw [hmesh]; simp [hlen]; omega
+  · rw [hex, mults_expand a p _ hcnt hne]
+    simp [List.map_map, Function.comp_def, hlen]
+  · unfold numdofs makeKnotsFrom
+    simp [repeatEach_length, hlen]
+    have : mult * (n - 1) + (p + 1) = p + 1 + mult * (n - 1) := by omega
+    omega
+
 example : makeKnots 2 (0 : ℚ) 1 4 1 = [0, 0, 0, 1/4, 1/2, 3/4, 1, 1, 1]
     ∧ numspans (makeKnots 2 (0 : ℚ) 1 4 1) = 4 ∧ mults (makeKnots 1 (0 : ℚ) 3 3 2) = [2, 2, 2, 2] := by
   decide +kernel
